@@ -135,6 +135,8 @@ HISTORIES = [
     "for (let i = 0; i < 300; i++) { const o = {}; for (let j = 0; j < 12; j++) o['k' + ((i * 7 + j * 13) % 40)] = j; for (let j = 0; j < 6; j++) delete o['k' + ((i + j) % 40)]; }"
     "const m = new Map(); for (let i = 0; i < 500; i++) m.set({}, i); const s = []; for (let i = 0; i < 200; i++) s.push(Symbol('s' + i)); print('churn', m.size, s.length);"
     "function mk(n) { return n ? [mk(n - 1), mk(n - 1)] : {}; } mk(9); print('deep');",
+    "function tg(s) { return s; } var T1 = tg`EVIL ${0} TEMPLATE`; var T2 = tg`second\\n ${1} raw ${2}`; Array.prototype.poisoned = 'set by an earlier context';"
+    "function again() { return tg`site ${3}`; } print('templates', T1.length, T2.raw.length, again() === again());",
     "let x = 0; const t = Promise.resolve(); for (let i = 0; i < 50; i++) t.then(() => x++); class A { static #p = 1; static m() { return A.#p; } } print('jobs', A.m());"
     "const wr = new WeakRef({}); const fr = new FinalizationRegistry(() => {}); fr.register({}, 1); const wm = new WeakMap(); wm.set({}, 1); eval('var viaEval = 1'); new Function('return 1')();",
 ]
@@ -165,6 +167,16 @@ ORDER_PROGS = [
     "var viaVar = 1; let viaLet = 2; function viaFn() {} print(Object.getOwnPropertyDescriptor(globalThis, 'viaVar').configurable, typeof globalThis.viaLet, Object.keys(globalThis).filter(k => k.startsWith('via')).join());",
     "print(typeof g0, typeof g1, typeof viaEval, typeof undefined2, [].push(1), String({}), ({}).zz, ({})[0], Math.max(1, 2), JSON.stringify([1]), (5).toString());",
     "print([..._it()].join()); function* _it() { yield* [1, 2]; } print(String(new TypeError('x')), /a/.exec('a') !== null, new Map().set(1, 2).size, 'x'.valueOf());",
+    "function tag(s) { return s; } const a = tag`hello ${1} world`; print(JSON.stringify(a), JSON.stringify(a.raw), Object.getPrototypeOf(a) === Array.prototype, a instanceof Array, a.poisoned, Object.isFrozen(a));",
+    "function tag(s) { return s; } function site() { return tag`x${0}y\\n`; } const s1 = site(), s2 = site(); print(s1 === s2, s1.raw[1], s1[1].length, tag`x${0}y\\n` === s1, Object.isFrozen(s1.raw));",
+    "const ks = []; for (let i = 0; i < 16; i++) ks.push({ id: i }); const items = []; for (let r = 0; r < 3; r++) for (const k of ks) items.push(k); const m = Map.groupBy(items, x => x); print([...m.keys()].map(k => k.id).join(), [...m.values()].map(v => v.length).join());",
+    "const g = Object.groupBy(['pear', 'apple', 'fig', 'kiwi', 'plum', 'avocado'], w => w[0]); print(Object.keys(g).join(), JSON.stringify(g)); const m = Map.groupBy(['pear', 'apple', 'fig', 'kiwi'], w => w[0]); print([...m.keys()].join());",
+    "const syms = []; for (let i = 0; i < 12; i++) syms.push(Symbol('s' + i)); const m = Map.groupBy(syms.concat(syms), x => x); print([...m.keys()].map(k => k.description).join());",
+    "const os = []; for (let i = 0; i < 20; i++) os.push({ i }); const s = new Set(os); const t = new Set(os.slice(5, 15).reverse()); const show = x => [...x].map(o => o.i).join(); print(show(s.union(t)), '|', show(s.intersection(t)), '|', show(t.difference(new Set(os.slice(0, 8)))), '|', show(s.symmetricDifference(t)));",
+    "const os = []; for (let i = 0; i < 20; i++) os.push({ i }); const m = new Map(os.map(o => [o, o.i])); for (let i = 0; i < 20; i += 3) m.delete(os[i]); for (let i = 0; i < 20; i += 6) m.set(os[i], -i); print([...m.values()].join()); const wm = new WeakMap(os.map(o => [o, o.i])); print(os.filter(o => wm.has(o)).length);",
+    "const fns = []; for (let i = 0; i < 10; i++) fns.push(function () { return i; }); const m = new Map(); fns.forEach(f => m.set(f, f())); print([...m.values()].join(), [...new Set(fns.concat(fns))].length); print(Object.entries(Object.fromEntries(fns.map((f, i) => ['k' + (9 - i), i]))).join());",
+    "const arr = []; for (let i = 0; i < 30; i++) arr.push({ k: i % 4, i }); print(arr.toSorted((a, b) => a.k - b.k).map(x => x.i).join()); print(Array.from(new Set(arr.map(x => x.k))).join(), [...new Map(arr.map(x => [x.k, x.i]))].join());",
+    "const p = new Proxy({ b: 1, a: 2, 1: 3 }, {}); print(Reflect.ownKeys(p).join(), JSON.stringify(p)); const o = Object.create({ z: 1 }, { y: { value: 1, enumerable: true }, x: { value: 2, enumerable: true } }); const out = []; for (const k in o) out.push(k); print(out.join());",
     "print(new Intl_or_none()); function Intl_or_none() { return 1; }",
     "const d = Object.getOwnPropertyDescriptors(class { get a() { return 1; } set a(v) {} static b = 2; }.prototype); print(Object.keys(d).join(), typeof d.a.get);",
 ]
